@@ -432,6 +432,7 @@ DB_KINDS = ["normal", "normal", "empty", "nulls", "dups"]
 
 
 def explore_shard(prop, seed, shard, n_cases, profile, dialects=("sqlite", "generic"), props=None, reduce_budget=40):
+    findings_cache = None
     """Generic exploration loop used by C01/C03/C04/C05.
     props: set of property ids whose symptoms this check owns."""
     rng = core.shard_rng(seed, prop + ":" + profile, shard)
@@ -510,7 +511,19 @@ def explore_shard(prop, seed, shard, n_cases, profile, dialects=("sqlite", "gene
                         viols.append({"property": p, "symptom": sym, "shape": dialect + " :: " + shape, "witness": None, "detail": det, "dup": True})
                         continue
                     fw2 = o.obs.get("frame_wildcard", False)
-                    if n_reduced < reduce_budget:
+                    do_reduce = True
+                    if n_reduced >= reduce_budget:
+                        # past the budget a case is reduced only if its unreduced shape is not already
+                        # attributable to a listed finding (reduction exists to attribute, not to report)
+                        ushape = dialect + " :: " + (("[W] " if fw2 else "[K] ") if p == "C05" else "") + shape_of(prog)
+                        if findings_cache is None:
+                            findings_cache = core.load_findings()
+                        for f in findings_cache:
+                            if f.prop in (p, prop) and f.matches({"property": f.prop, "symptom": sym, "shape": ushape}):
+                                do_reduce = False
+                                break
+                        obs["reductions_past_budget"] = obs.get("reductions_past_budget", 0) + (1 if do_reduce else 0)
+                    if do_reduce:
                         n_reduced += 1
                         rp, rdb = reduce_case(w, prog, db, dialect, p, sym)
                         w.db_open("rdx", grel.db_stmts(rdb))
